@@ -29,7 +29,7 @@ HIST_ID = "2095-11-03_USA_G"
 
 
 def bounds(tier):
-    return {"perturbed_statuses": 7, "locations": 3, "replacements": PERT, "estimators": ["np2", "ga1", "bs1 (B=10)", "bs1 (B=3, fixed effects)"], "outlier_models": [False, True]}
+    return {"perturbed_statuses": 8, "locations": 3, "replacements": PERT, "estimators": ["np2", "ga1", "bs1 (B=10)", "bs1 (B=3, fixed effects)"], "outlier_models": [False, True]}
 
 
 def cases(tier, seed):
@@ -41,6 +41,9 @@ def cases(tier, seed):
     ptypes.append(("state_blocklisted", "newstate"))
     # outstanding by a fraction of a percent (99.6 with the threshold at 100)
     ptypes += [("nonrep_partial99", "pop0"), ("nonrep_partial99", "newcounty")]
+    # a turnout surge (every reporting unit about 1.45 times its baseline): bootstrap turnout draws of the outstanding units
+    # sit at the model's naive upper bound, so anything that moves that bound for everybody shows
+    ptypes += [("nonrep_partial+surge", "pop0"), ("nonrep_partial+surge", "newcounty")]
     for st, loc in ptypes:
         for setup in ("np2", "ga1", "bs1", "bs1fe"):
             for outlier in (False, True):
@@ -110,6 +113,13 @@ def _pair_case(case, cov, viol):
     # two wild reporting units so that outlier models have something near their threshold
     for u in units[:2]:
         u["r_dem"], u["r_gop"], u["r_turnout"] = int(u["b_dem"] * 1.7), int(u["b_gop"] * 0.7), int(u["b_turnout"] * 1.45)
+    if st.endswith("+surge"):
+        for u in units:
+            if u["pev"] >= 100:
+                f = 1.4 + 0.02 * (sum(map(ord, u["id"])) % 6)
+                u["r_dem"], u["r_gop"] = int(u["b_dem"] * f), int(u["b_gop"] * f)
+                u["r_turnout"] = u["r_dem"] + u["r_gop"] + 7
+        cov["surge_elections"] += 1
     probe = E.make_probe(case["seed"], 0, "nonrep_partial" if st.startswith("nonrep_partial") else st, case["loc"], weights=w)
     if st == "nonrep_partial60":
         probe["pev"] = 60.0
@@ -310,4 +320,4 @@ def evaluate(case):
     return {"violations": V, "cov": dict(cov), "outcome": sha([v["sig"] for v in V] + [runs]), "nontrivial": nontriv, "transitions": runs}
 
 
-REQUIRED_COUNTERS = {"pairs": 300, "containing_group_deltas": 200, "historical_pairs": 30, "district_office_pairs": 6}
+REQUIRED_COUNTERS = {"pairs": 300, "containing_group_deltas": 200, "historical_pairs": 30, "district_office_pairs": 6, "surge_elections": 6}
